@@ -33,6 +33,7 @@ func (n *VerifNode) VerifPeerQueueLen() int { return len(n.CS.peerMsgQueue) }
 func (n *VerifNode) VerifStepPeerQueue() ConsensusMessage {
 	select {
 	case mi := <-n.CS.peerMsgQueue:
+		n.CS.wal.Write(mi) // receiveRoutine logs every peer message before it looks at it (a no-op with the default nil WAL)
 		n.CS.handleMsg(mi)
 		return mi.Msg
 	default:
@@ -54,4 +55,21 @@ func (conR *ConsensusReactor) VerifGossip(peer p2p.Peer) {
 		}(f)
 	}
 	wg.Wait()
+}
+
+// VerifMaxMsgSize is the largest message the reactor accepts from a peer.
+func VerifMaxMsgSize() int { return maxMsgSize }
+
+// VerifUseFileWAL gives the node a real write-ahead log in dir, as OnStart does on a running node (loadWalFile + Start);
+// the returned function stops it.
+func (n *VerifNode) VerifUseFileWAL(dir string) (stop func(), err error) {
+	wal, err := NewWAL(dir + "/wal")
+	if err != nil {
+		return nil, err
+	}
+	if err := wal.Start(); err != nil {
+		return nil, err
+	}
+	n.CS.wal = wal
+	return func() { wal.Stop(); n.CS.wal = nilWAL{} }, nil
 }
